@@ -239,7 +239,15 @@ pub fn relation(q: &str, targets: &[String]) -> &'static str {
 
 /// Compare one snapshot with the model: every probed path must look exactly as the model says.
 pub fn compare_snap(m: &Model, s: &Snap) -> Option<(String, &'static str, String)> {
+    compare_snap_skip(m, s, &[])
+}
+
+/// `skip`: paths whose content/length is unspecified right now (unflushed open write handle)
+pub fn compare_snap_skip(m: &Model, s: &Snap, skip: &[String]) -> Option<(String, &'static str, String)> {
     for (p, e) in &s.e {
+        if skip.contains(p) {
+            continue;
+        }
         let node = m.t.get(p);
         let st = match node {
             Some(Node::Dir) => "D",
@@ -319,7 +327,7 @@ impl SeqCtx {
                 exec.phys_dirs[i] = b.nodes[0].phys_dir.clone();
             }
         }
-        let world = World { m: cfg.specs.iter().map(|s| s.view()).collect() };
+        let world = World { m: cfg.specs.iter().map(|s| s.view()).collect(), w: Default::default() };
         let mut universe: Vec<BTreeSet<String>> = world.m.iter().map(|m| m.t.keys().cloned().collect()).collect();
         for op in &cfg.ops {
             for p in op.paths() {
@@ -524,7 +532,8 @@ pub fn contract_monitor(cx: &mut SeqCtx, i: usize, op: &Op, before: &World, want
     }
     let targets = if i > 0 { canon_targets(op) } else { vec![] };
     for (f, s) in snaps.iter().enumerate() {
-        if let Some((p, field, d)) = compare_snap(&cx.world.m[f], s) {
+        let skip = cx.world.dirty_paths(f);
+        if let Some((p, field, d)) = compare_snap_skip(&cx.world.m[f], s, &skip) {
             let rel = relation(&p, &targets);
             let key = if i == 0 {
                 format!("{}|{}|initial|snap|{}", prop, shape, field)
